@@ -280,7 +280,7 @@ func main() {
 	}
 	thorough := r.Thorough()
 	if thorough {
-		r.SetBudget(13 * time.Minute)
+		r.SetBudget(14 * time.Minute)
 	} else {
 		r.SetBudget(240 * time.Second)
 	}
@@ -299,7 +299,7 @@ func main() {
 	Y := topBits | allMask()
 	N := topBits
 	wrong := func(top uint32) int32 { return int32(top<<29 | uint32(allMask())) }
-	depth := r.Pick(12, 14)
+	depth := r.Pick(12, 13)
 
 	combos := []comboA{
 		{"YN/step", TreeSpecA{N, Y, N, "step", depth}, "full"},
@@ -368,7 +368,7 @@ func main() {
 				d.starts = uniq64([]int64{0, 1, mt[2], mt[2] + 1, mt[4] + 1, mt[5], mt[5] + 1, mt[8]})
 				d.timeouts = uniq64([]int64{0, -1, mt[2], mt[5], mt[5] + 1, mt[8], mt[8] + 1, mt[11], mt[11] + 1, far})
 				d.mins = []uint32{0, 1, 8, 9, 10, 12, 13, 1000}
-				d.customs = []uint32{0, 1, 2, 3, 4}
+				d.customs = []uint32{0, 2, 3, 4}
 				aah2 = []uint32{1, 2, 9, 10, 13}
 			}
 			defs = enumDefs(d)
@@ -451,6 +451,50 @@ func main() {
 		mu.Unlock()
 	}
 
+	// ---------------- suite C: rule gating end to end ----------------
+	var cDone, cActive int64
+	if (exhaustive || only == "C") && only != "A" && only != "B" {
+		cases := casesC()
+		ev.Par(len(cases), workers, func(i int) {
+			if r.Expired() {
+				return
+			}
+			c := cases[i]
+			bad, broken := runCaseC(c)
+			if broken != "" {
+				r.Broken("suite C scenario could not be set up (%+v): %s", c, broken)
+			}
+			if bad != "" {
+				key := "e2e/" + c.Kind + "/" + keyC(bad)
+				if _, loaded := seenKeys.LoadOrStore(key, true); !loaded {
+					for k := 0; k < 3; k++ {
+						if b2, br := runCaseC(c); br != "" || b2 != bad {
+							r.Broken("suite C verdict flips between re-runs (%+v): %q vs %q / %s", c, bad, b2, br)
+						}
+					}
+					r.Violation(key, fmt.Sprintf("%s (case %+v)", bad, c), Replay{Key: key, What: bad, Kind: "e2e", E2E: &c})
+				}
+			}
+			atomic.AddInt64(&cDone, 1)
+			r.Eval(1)
+			r.Trace(1)
+			r.Nontrivial(fmt.Sprintf("C|%+v", c))
+		})
+		if int(cDone) != len(cases) {
+			r.Cap(fmt.Sprintf("suite C: %d of %d cases done", cDone, len(cases)))
+			exhaustive = false
+		}
+		r.Set("suite_C_bounds", map[string]interface{}{
+			"params":  "regtest-like, window 3, threshold 2, CSV on bit 0 always started / never expires; real blocks through ProcessBlock on ffldb",
+			"linear":  "all 2^6 vote patterns of heights 3..8; probe block with a BIP68-violating tx at every height 6..13, probe block with an OP_CHECKSEQUENCEVERIFY-violating tx at heights 8,9,11,12",
+			"fork":    "common blocks 1..3, two arms with independent votes (heights 4,5 free, heights 6..8 all-yes/all-no: 8 x 8 arm pairs), arm A probed at height 8 or 9, then arm B delivered (reorg) and probed at height 11 or 12",
+			"oracle":  "probe accepted iff the reference state of that block is not ACTIVE; rejected with ErrUnfinalizedTx / ErrScriptValidation iff ACTIVE",
+			"n_cases": len(cases),
+		})
+	}
+	_ = cActive
+	r.Add("suite_C_cases", cDone)
+
 	// ---------------- suite B ----------------
 	var bTrees, bOrders, bQueries, bDiff int64
 	if (exhaustive || only == "B") && only != "A" && only != "C" {
@@ -484,15 +528,14 @@ func main() {
 		kinds := [][2]int32{{N, Y}}
 		if thorough {
 			kinds = append(kinds, [2]int32{wrong(2), Y})
-			prefixes = append(prefixes, "Y", "NYY")
 		}
 		var units []unitB
 		for ki, kd := range kinds {
 			for _, db := range defsB {
 				for F := 5; F <= 10; F++ {
 					for pi, p := range prefixes {
-						if ki > 0 && pi > 0 {
-							continue // the second vote-kind pair only with the first prefix
+						if ki > 0 && (pi > 0 || F%3 != 2) {
+							continue // the second vote-kind pair only with the first prefix and forks at heights 5, 8
 						}
 						units = append(units, unitB{F: F, E: E, Prefix: p, ArmBits: armBits, K0: kd[0], K1: kd[1], Thr: db.thr, Defs: db.defs, NQ: nq})
 					}
@@ -533,50 +576,6 @@ func main() {
 			"definition_sets": len(defsB), "units": len(units), "vote_kind_pairs": len(kinds),
 		})
 	}
-
-	// ---------------- suite C: rule gating end to end ----------------
-	var cDone, cActive int64
-	if (exhaustive || only == "C") && only != "A" && only != "B" {
-		cases := casesC()
-		ev.Par(len(cases), workers, func(i int) {
-			if r.Expired() {
-				return
-			}
-			c := cases[i]
-			bad, broken := runCaseC(c)
-			if broken != "" {
-				r.Broken("suite C scenario could not be set up (%+v): %s", c, broken)
-			}
-			if bad != "" {
-				key := "e2e/" + c.Kind + "/" + keyC(bad)
-				if _, loaded := seenKeys.LoadOrStore(key, true); !loaded {
-					for k := 0; k < 3; k++ {
-						if b2, br := runCaseC(c); br != "" || b2 != bad {
-							r.Broken("suite C verdict flips between re-runs (%+v): %q vs %q / %s", c, bad, b2, br)
-						}
-					}
-					r.Violation(key, fmt.Sprintf("%s (case %+v)", bad, c), Replay{Key: key, What: bad, Kind: "e2e", E2E: &c})
-				}
-			}
-			atomic.AddInt64(&cDone, 1)
-			r.Eval(1)
-			r.Trace(1)
-			r.Nontrivial(fmt.Sprintf("C|%+v", c))
-		})
-		if int(cDone) != len(cases) {
-			r.Cap(fmt.Sprintf("suite C: %d of %d cases done", cDone, len(cases)))
-			exhaustive = false
-		}
-		r.Set("suite_C_bounds", map[string]interface{}{
-			"params":  "regtest-like, window 3, threshold 2, CSV on bit 0 always started / never expires; real blocks through ProcessBlock on ffldb",
-			"linear":  "all 2^6 vote patterns of heights 3..8, probe block (BIP68-violating tx) at every height 6..13",
-			"fork":    "common blocks 1..3, two arms with independent votes (heights 4,5 free, heights 6..8 all-yes/all-no: 8 x 8 arm pairs), arm A probed at height 8 or 9, then arm B delivered (reorg) and probed at height 11 or 12",
-			"oracle":  "probe accepted iff the reference state of that block is not ACTIVE; rejected with ErrUnfinalizedTx iff ACTIVE",
-			"n_cases": len(cases),
-		})
-	}
-	_ = cActive
-	r.Add("suite_C_cases", cDone)
 
 	// Out-of-scope probe (recorded, not a verdict): deployment id == number of
 	// deployments.
